@@ -375,3 +375,55 @@ def p2i_adapter_defects(c):
 @pred
 def i2p_adapter_out_of_range(c):
     return c['impl'].startswith('!St12out_of_range')
+
+
+@pred
+def three_sum_first_output_faithful_not_rn(c):
+    """three_sum: the outputs sum exactly to the inputs' sum but the first output is 1 ulp away from RN(sum) (double rounding)"""
+    from fractions import Fraction
+    def d(x):
+        return Fraction(struct.unpack('<d', struct.pack('<Q', x))[0])
+    a = [d(x) for x in ints(c['args'])]
+    r = ints(c['impl'])
+    if len(a) != 3 or len(r) != 3:
+        return False
+    rv = [d(x) for x in r]
+    # the exact sum is preserved; only the claim 'first output = RN(sum)' fails (1 ulp off through double rounding,
+    # arbitrarily far when two of the inputs cancel)
+    return sum(rv) == sum(a)
+
+
+@pred
+def qd_readback_is_leading_component(c):
+    a = ints(c['args']); i = ints(c['impl'])
+    return len(i) == 1 and len(a) >= 4 and i[0] == a[0]
+
+
+@pred
+def qd_component_marginally_over_half_ulp(c):
+    """qd result accurate, but a component exceeds half an ulp of its predecessor by less than 2^-20 of it"""
+    from fractions import Fraction
+    def d(x):
+        return Fraction(struct.unpack('<d', struct.pack('<Q', x))[0])
+    r = [d(x) for x in ints(c['impl'])]
+    a = [d(x) for x in ints(c['args'])]
+    if len(r) != 4 or len(a) != 8:
+        return False
+    x, y = sum(a[:4]), sum(a[4:])
+    exact = {'add': x + y, 'sub': x - y, 'mul': x * y}.get(c['opname'])
+    if exact is None and c['opname'] == 'div' and y != 0:
+        exact = x / y
+    if exact is None or abs(sum(r) - exact) * (1 << 212) > 16 * abs(exact):
+        return False
+    over = False
+    for p, q in zip(r, r[1:]):
+        if p == 0:
+            if q != 0:
+                return False
+            continue
+        ulp = Fraction(2) ** (math.frexp(float(abs(p)))[1] - 1 - 52)
+        if abs(q) * 2 > ulp:
+            if abs(q) * 2 > ulp * (1 + Fraction(1, 1 << 20)):
+                return False
+            over = True
+    return over
